@@ -295,9 +295,20 @@ def run_shard(spec, tier, seed):
     if spec['kind'] == 'refuse':
         run_refuse_shard(spec, seed, res)
         return res
+    n = 0
     for label, prog in progwork.programs(spec, seed):
         for ss in ([None, 5] if spec['part'] != 'small' else [None]):
             check_solve(label, prog, ss, res, spec)
+        n += 1
+        if spec['part'] == 'random' and n % 4 == 0 and prog['answers']:
+            # a prompt callback that hands back text the input does not accept (as "supplied"): whatever the solver
+            # does about it, it ends within the bounds and asks nobody twice
+            import copy
+            bad = copy.deepcopy(prog)
+            for q in sorted(bad['answers'])[:: 2]:
+                bad['answers'][q] = 'not a valid answer'
+            res.count('solves_with_invalid_prompt_answers')
+            check_solve(label + ':invalid-answers', bad, None, res, spec)
     return res
 
 
